@@ -15,11 +15,12 @@ LEVEL = 'exploration'
 RULE = ('Differential: classification.py (categorize_amount, is_excluded_from_spending, is_income/transfer/investment, '
         'calculate_cash_flow) against the same-named functions of the CURRENT spending_report.js executed by node in a vm '
         'context. Cases = exhaustive product {ordered subsets of the 3 special tags} x {4 letter-case styles} x {4 other-tag '
-        'shapes incl. None/missing} x {13 amount classes} plus Hypothesis-generated (amount, tag list, flow triple). '
+        'shapes incl. None/missing} x {13 amount classes} plus Hypothesis-generated (amount, tag list, flow triple), plus ledgers '
+        '(2-6 transactions of shared merchants): analyze_transactions totals = sums of the script\'s per-transaction buckets. '
         'Non-trivial = a special tag in non-lower case, or two special tags, or a non-positive amount; distinct by case hash.')
 ASSUMPTIONS = ['node vm with stubbed Vue/document stands in for the browser JS engine (same ECMAScript number semantics)',
                'non-finite amounts are outside the domain (JSON cannot carry them into the report either)']
-REQUIRED_CLASSES = ['two_special', 'nonlower_special', 'nonpositive', 'tags_null', 'host_object_property_tag']
+REQUIRED_CLASSES = ['two_special', 'nonlower_special', 'nonpositive', 'tags_null', 'host_object_property_tag', 'ledger_merchant_with_mixed_special_tags']
 
 SPECIAL = ['income', 'investment', 'transfer']
 KEYMAP = {'income': 'income', 'investment': 'investment', 'transfer_in': 'transferIn', 'transfer_out': 'transferOut',
@@ -203,11 +204,58 @@ def check_batch(batch, stats):
         raise
 
 
+# ------------------------------------------------------------------------------------------------
+# ledgers: the totals the command-line analysis prints for a LIST of transactions are the sums, over the transactions, of what the report's
+# script computes for each transaction's own amount and own tag list
+# ------------------------------------------------------------------------------------------------
+ledger_txn = st.fixed_dictionaries({'merchant': st.sampled_from(['VENMO', 'VENMO', 'GROCER', 'Payroll']),
+                                    'amount': st.integers(-10 ** 6, 10 ** 6).filter(bool).map(lambda c: c / 100.0),
+                                    'tags': st.lists(st.one_of(st.sampled_from(SPECIAL + ['Income', 'TRANSFER', 'food', 'friends']), tag_st), max_size=3),
+                                    'month': st.integers(1, 12)})
+ledger_st = st.fixed_dictionaries({'kind': st.just('ledger'), 'txns': st.lists(ledger_txn, min_size=2, max_size=6)})
+TOTALS = {'income_total': 'income', 'investment_total': 'investment', 'spending_total': 'spending', 'credits_total': 'credits', 'transfers_in': 'transferIn',
+          'transfers_out': 'transferOut'}
+
+
+def check_ledger(case, stats):
+    import math
+    from datetime import datetime
+    from tally.analyzer import analyze_transactions
+    txns = [{'merchant': t['merchant'], 'amount': t['amount'], 'tags': list(t['tags']), 'category': 'C', 'subcategory': 'S', 'date': datetime(2024, t['month'], 5),
+             'description': t['merchant'], 'raw_description': t['merchant'], 'source': 'X'} for t in case['txns']]
+    try:
+        res = analyze_transactions(txns)
+    except Exception as e:
+        raise Violation(f'analyze_transactions raised {type(e).__name__}: {e}', case, 'py-raises')
+    js = node().ask([{'amount': t['amount'], 'tags': list(t['tags'])} for t in case['txns']])
+    sums = {k: 0.0 for k in TOTALS.values()}
+    for r in js:
+        if 'error' in r:
+            raise Violation(f'JS raised {r["error"]} for a transaction of the ledger', case, 'js-raises')
+        for k in sums:
+            sums[k] += float(r['cat'][k])
+    for pk, jk in TOTALS.items():
+        if not math.isclose(res[pk], sums[jk], rel_tol=1e-9, abs_tol=1e-6):
+            raise Violation(f'{pk}: the command-line analysis prints {res[pk]!r}, the report script sums {sums[jk]!r} over the same transactions '
+                            f'{[(t["merchant"], t["amount"], t["tags"]) for t in case["txns"]]}', case, 'ledger-total')
+    flow = node().ask([{'amount': 1.0, 'tags': [], 'flow': [sums['income'], sums['spending'], sums['credits']]}])[0]
+    if not math.isclose(res['cash_flow'], float(flow['flow']), rel_tol=1e-9, abs_tol=1e-6):
+        raise Violation(f'cash flow: the command-line analysis prints {res["cash_flow"]!r}, the report script {flow["flow"]!r}', case, 'ledger-cashflow')
+    by_m = {}
+    for t in case['txns']:
+        by_m.setdefault(t['merchant'], []).append({x.lower() for x in t['tags'] if isinstance(x, str)} & set(SPECIAL))
+    mixed = any(len({frozenset(x) for x in v}) > 1 for v in by_m.values())
+    stats.case(jhash(case), mixed, {'ledger'} | ({'ledger_merchant_with_mixed_special_tags'} if mixed else set()), sample=case if mixed else None)
+
+
 def replay(case):
     global _node
     try:
         if case.get('kind') == 'load' if isinstance(case, dict) else False:
             node()
+            return
+        if isinstance(case, dict) and case.get('kind') == 'ledger':
+            check_ledger(case, Stats())
             return
         for c in (case if isinstance(case, list) else [case]):
             r = node().ask([c])[0]
@@ -220,7 +268,7 @@ def replay(case):
 
 def shards(tier):
     n = 300 if tier == 'quick' else 5000
-    return [('exhaustive', 0)] + [('random', n)] * 15
+    return [('exhaustive', 0)] + [('random', n)] * 12 + [('ledger', n * 4)] * 3
 
 
 def run_shard(kind, n, seed, tier):
@@ -231,6 +279,8 @@ def run_shard(kind, n, seed, tier):
             for i in range(0, len(cases), 500):
                 run_batch(cases[i:i + 500], s, sample_every=401)
             s.exhaustive['special-tag permutations x case styles x other-tag shapes x 13 amount classes'] = True
+        elif kind == 'ledger':
+            campaign(ledger_st, check_ledger, n, seed, s, tier)
         else:
             campaign(batch_st, check_batch, n, seed, s, tier)
             # shrunk batch -> keep only the failing element(s)
